@@ -323,12 +323,13 @@ def run_rank(case, r, rng):
     # rank_tensordot
     for kk in (1, 2, 3):
         for mode in ('last', 'first'):
-            for cm in (False, True):
+            for cm in (False, True, 'eye'):
+                shp = (rk[-1], kk) if mode == 'last' else (kk, rk[0])
+                # 'eye': structured 0/1 matrices -- square identity, rectangular selector / zero-padding np.eye(r, k), unit vectors
+                Mx = np.eye(*shp) if cm == 'eye' else rand_array(rng, shp, cm)
                 if mode == 'last':
-                    Mx = rand_array(rng, (rk[-1], kk), cm)
                     want = np.tensordot(Sd, Mx, axes=([d + 1], [0]))
                 else:
-                    Mx = rand_array(rng, (kk, rk[0]), cm)
                     want = np.tensordot(Mx, Sd, axes=([1], [0]))
                 M0 = Mx.copy()
                 for ow in (False, True):
